@@ -120,6 +120,24 @@ fn bincode_decode<const B: usize>() {
     }
     core::mem::forget(r);
 }
+/// The string length prefix announces more than isize::MAX bytes (8 input bytes in
+/// all). `Vec::resize` is replaced by an observer that checks the requested size against
+/// the input size (symbolic-size allocations are what the solver cannot execute).
+#[kani::proof]
+#[kani::unwind(12)]
+#[kani::stub(alloc::fmt::format, fmt_format_stub)]
+#[kani::stub(std::backtrace::Backtrace::capture, backtrace_stub)]
+#[kani::stub(std::vec::Vec::resize, resize_guard)]
+fn c06_bincode_hugelen_b8() {
+    let raw: [u8; 8] = kani::any();
+    kani::assume(raw[7] >= 0x80); // little-endian u64 >= 2^63
+    unsafe { ALLOC_LIMIT = 8 };
+    let mut buf = BytesMut::from(&raw[..]);
+    let c: BincodeCodec<Dummy> = BincodeCodec::default();
+    let r = c.decode(&mut buf);
+    assert!(r.is_err(), "a length prefix beyond the input is an error");
+    core::mem::forget(r);
+}
 proof!(c06_string_b0, 6, { string_decode::<0>() });
 proof!(c06_string_b3, 8, { string_decode::<3>() });
 proof!(c06_string_b6, 12, { string_decode::<6>() });
